@@ -442,4 +442,85 @@ def cmpFn (nc : Val → Val → Out Ordering) (name : String) (a b : Val) : Out 
   | "str" => .ok (.str [120])
   | _ => .throw
 
+/-! ### call forms of the comparison operators, and every form that reaches an extremum -/
+
+/-- `accept` of one `ComparisonOperator` on a neighbouring pair -/
+def cmpAccept (op : String) (a b : Val) : Out Bool :=
+  match op with
+  | "==" => .ok (valEq a b)
+  | "!=" => .ok (!valEq a b)
+  | "<" => (ncmp a b).map fun o => o == .lt
+  | ">" => (ncmp a b).map fun o => o == .gt
+  | "<=" => (ncmp a b).map fun o => o != .gt
+  | ">=" => (ncmp a b).map fun o => o != .lt
+  | _ => .throw
+
+/-- the neighbour loop of `ComparisonOperator::run` (`Few::Many`): left to right, the first false
+pair answers false, the first raising pair raises -/
+def cmpLoop (op : String) : List Val → Out Bool
+  | a :: b :: rest =>
+    match cmpAccept op a b with
+    | .ok true => cmpLoop op (b :: rest)
+    | .ok false => .ok false
+    | .throw => .throw
+    | .panic => .panic
+  | _ => .ok true
+
+/-- `op(args…)` (also `op(...xs)`): no operand is an argument error, one operand a partial
+application (a function), two or more the neighbour loop -/
+def cmpCall (op : String) (args : List Val) : Out Val :=
+  match args with
+  | [] => .throw
+  | [_] => .ok (.func 0)
+  | _ => (cmpLoop op args).map ofBool
+
+/-- an infix chain `a op₁ b op₂ c …` (`try_chain`): `ops` has one operator per neighbouring pair -/
+def cmpChain : List String → List Val → Out Bool
+  | op :: ops, a :: b :: rest =>
+    match cmpAccept op a b with
+    | .ok true => cmpChain ops (b :: rest)
+    | .ok false => .ok false
+    | .throw => .throw
+    | .panic => .panic
+  | _, _ => .ok true
+
+/-- `xs fold max` / `a max b` / `x max= y`: repeated two-operand `max(acc, y)` -/
+def foldExtremum (bias : Ordering) : List Val → Out Val
+  | [] => .throw
+  | x :: rest => rest.foldl (fun acc y => acc.bind fun a => extremum bias [a, y]) (.ok x)
+
+/-- `max(xs, f)` / `max(a, b, c, f)` with a comparator function: the running result is replaced
+when `ncmp(f(b, r), 0)` is the bias; an error of `f` or a non-comparable result raises -/
+def extremumByLoop (nc : Val → Val → Out Ordering) (f : Val → Val → Out Val) (bias : Ordering) :
+    Option Val → List Val → Out (Option Val)
+  | ret, [] => .ok ret
+  | none, b :: rest => extremumByLoop nc f bias (some b) rest
+  | some r, b :: rest =>
+    match byCmp nc f b r with
+    | some o => extremumByLoop nc f bias (some (if o == bias then b else r)) rest
+    | none => .throw
+
+def extremumBy (nc : Val → Val → Out Ordering) (f : Val → Val → Out Val) (bias : Ordering) (xs : List Val) : Out Val :=
+  match extremumByLoop nc f bias none xs with
+  | .ok (some r) => .ok r
+  | _ => .throw
+
+/-- `for (…) yield k: v into max`: one `CataExtremum` per key (keys through the hash map: the first
+spelling of a key is kept), each fed the values in order -/
+def cataExtremumDict (nc : Val → Val → Out Ordering) (hit : Val → Val → Bool) (bias : Ordering) :
+    List (Val × Val) → List (Val × Val) → Out (List (Val × Val))
+  | acc, [] => .ok acc
+  | acc, (k, v) :: rest =>
+    if !validKey k then .throw
+    else
+      match acc.find? (fun e => hit k e.1) with
+      | none => cataExtremumDict nc hit bias (acc ++ [(k, v)]) rest
+      | some e =>
+        match nc v e.2 with
+        | .ok o =>
+          let acc' := acc.map fun e' => if hit k e'.1 then (e'.1, if o == bias then v else e'.2) else e'
+          cataExtremumDict nc hit bias acc' rest
+        | .throw => .throw
+        | .panic => .panic
+
 end Noulith
